@@ -12,6 +12,8 @@ C10.4 regularised-input discipline: once the ridge matrix A + epsilon*I is forme
 from __future__ import annotations
 
 import ast
+import itertools
+from types import SimpleNamespace
 
 from .. import astutil as A
 from ..cfg import CFG
@@ -224,6 +226,58 @@ def ridge_discipline(ctx, rep, rule: str) -> None:
     rep.floor(rule, "solvers forming a ridge matrix", n, 2)
 
 
+def higher_order_ridge(ctx, rep, rule: str) -> None:
+    """Regularisation of the higher-order coupled solver, interpreted on scalars (A = a, I = 1): the ridge is
+    max(rel_epsilon * |A|_inf, epsilon); the regularised matrix is A + ridge * I and the spectral bound grows by the ridge."""
+    from ..guards import MISSING, Interp, Raised, Unsupported
+
+    repo = ctx.repo
+    fi = repo.func(f"{MF}:_matrix_inverse_root_higher_order")
+    m = fi.module
+    params = fi.params
+    if "rel_epsilon" not in params or "abs_epsilon" not in params:
+        raise AnalysisError(f"{rule}: _matrix_inverse_root_higher_order has no rel_epsilon / abs_epsilon parameters")
+    stmts = []
+    for st in fi.node.body:
+        stmts += st.body if isinstance(st, ast.Try) else [st]
+
+    def hook(interp, call):
+        d = A.callee_name(repo, m, call)
+        if d == "torch.linalg.matrix_norm":
+            return abs(interp.ev(call.args[0]))
+        if d == "torch.eye":
+            return 1.0
+        if d == "torch.add":
+            al = A.keyword(call, "alpha")
+            return interp.ev(call.args[0]) + (interp.ev(al) if al is not None else 1.0) * interp.ev(call.args[1])
+        if d in ("math.isfinite", "torch.isfinite"):
+            return True
+        if isinstance(call.func, ast.Name) and call.func.id == "isfinite":
+            return True
+        if isinstance(call.func, ast.Attribute) and call.func.attr == "item":
+            return interp.ev(call.func.value)
+        return MISSING
+
+    bad = []
+    n = 0
+    for a, r, e in itertools.product([2.0, -5.0], [0.0, 0.25], [0.0, 0.5, 3.0]):
+        env = {"A": a, "rel_epsilon": r, "abs_epsilon": e, "root": SimpleNamespace(numerator=2, denominator=1), "order": 3, "disable_tf32": False}
+        it = Interp(env, call_hook=hook)
+        for st in stmts:
+            if any(A.callee_name(repo, m, c) == "torch.trace" for c in A.calls(st, nested=True)):
+                break  # the scaling that follows the regularisation
+            try:
+                it.stmt(st, lambda x: ast.unparse(x))
+            except (Unsupported, Raised, AttributeError, TypeError, KeyError):
+                continue  # statements outside the scalar model (timers, logging, tensors of coefficients) do not feed the ridge
+        ridge = max(r * abs(a), e)
+        got_a, got_l = it.env.get("A_ridge"), it.env.get("lambda_max_approx")
+        n += 1
+        if not (isinstance(got_a, float) and abs(got_a - (a + ridge)) < 1e-12 and isinstance(got_l, float) and abs(got_l - (abs(a) + ridge)) < 1e-12):
+            bad.append((a, r, e, got_a, got_l))
+    rep.ob(rule, "higher-order:ridge", not bad, fi.loc(), f"{n} scalar cases (A, rel_epsilon, epsilon): A_ridge = A + max(rel_epsilon*|A|_inf, epsilon) I and the bound |A|_inf grows by the same ridge" + (f"; at A={bad[0][0]}, rel_epsilon={bad[0][1]}, epsilon={bad[0][2]} the code gives A_ridge={bad[0][3]}, bound={bad[0][4]}" if bad else ""), sample=True)
+
+
 def run(ctx, rep) -> None:
     rep.rule("C10.1", "dispatch: one solver arm per config class forwarding A, root, epsilon and the config fields; fast paths first; fall-through raises")
     rep.rule("C10.2", "CONVERGED is produced only by an expression that is true iff the last |M - I| residual <= tolerance")
@@ -244,5 +298,7 @@ def run(ctx, rep) -> None:
     from .arith import eigen_root_arithmetic
 
     rep.rule("C10.7", "eigen solver and fast paths compute the documented formulas (exact term comparison): X = (Q * (lambda - min(lambda_min,0) + eps)^(-1/root)) @ Q^T; diag((d + eps)^(-1/root)); (a + eps)^(-1/root)")
+    rep.rule("C10.8", "higher-order solver: the ridge is max(rel_epsilon * |A|_inf, epsilon), added to A and to the spectral bound")
+    rep.attempt("higher_order_ridge", higher_order_ridge, ctx, rep, "C10.8")
     rep.attempt("eigen_root_arithmetic", eigen_root_arithmetic, ctx, rep, "C10.7")
     rep.assume("every accuracy bound of the statement and the agreement of fast paths with the general path are numerical and NOT decided; this is the weakest claimed property")
